@@ -1,2 +1,26 @@
-// Package c07 registers the C07 check (see DESIGN.md §4).
+// Package c07 registers the C07 check (see DESIGN.md §4): "Source responses are
+// validated: malformed or inconsistent data is rejected".
+//
+// Files:
+//
+//	c07.go      registration, configurations, sharded enumeration (singles; thorough: pairs), replay
+//	world.go    the simulated node (8-block chain), plans from glf.New, one execution of the real client
+//	ops.go      corruption operators on the decoded response tree / exchange faults, and their enumeration
+//	oracle.go   model of what was actually sent (from Exchange.Body) and the post-condition
+//	repro_test.go  minimal standalone reproductions of every violation key found on the unchanged tree
+//	self_test.go   self-tests of the check's machinery
+//
+// Violation keys (stable; "<kind>" is headers|blocks|receipts|logs|traces|latest|hash):
+//
+//	panic:<top shovel frame>/<why the response had to be rejected>
+//	<kind>:<reason>-accepted      the property requires an error (transport-error, http-status, undecodable-body,
+//	                              wrong-shape, short-batch, error-object, missing-result, null-result, wrong-type,
+//	                              wrong-number, out-of-range-item) and the call returned none
+//	get:wrong-length, get:wrong-number-{first,middle,last}, get:duplicate-tx
+//	<kind>:block-never-sent, <kind>:block-hash-never-sent, <kind>:header-not-as-sent, <kind>:unlinked-headers-accepted
+//	get:hash-overwritten-broken-link
+//	{logs,receipts,traces}:{misattached,sent-but-not-attached,attached-but-never-sent}[/mixed-block-response]
+//	logs:colliding-log-index-dropped   two different logs of one tx carry the same logIndex; eth.Logs.Add keeps the first
+//	logs:attached-twice, logs:duplicate-log-index-attached
+//	{latest,hash}:not-as-sent
 package c07
